@@ -79,13 +79,157 @@ let do_case r =
       let bound = sqrt (tol *. Float.abs ival) +. 1e-12 +. 1e-12 *. Float.abs t2 in
       if not (Float.abs (ival -. t2) <= bound) then begin
         incr nprop;
-        if !nprop < 400 then Printf.printf "PROPVIOL %s I=%h true=%h err=%g bound=%g tol=%h\n" r.id ival t2 (Float.abs (ival -. t2)) bound tol
+        (* counterfactual: the same call with the first one / two acceptances deferred (hook quad_defer) *)
+        let df = (try (getm r "defer").d with Not_found -> [| ival; 1.0; ival; 1.0 |]) in
+        let okd v cv = cv = 0.0 || Float.abs (v -. t2) <= sqrt (tol *. Float.abs v) +. 1e-12 +. 1e-12 *. Float.abs t2 in
+        let restored = okd df.(0) df.(1) || okd df.(2) df.(3) in
+        if !nprop < 4000 then Printf.printf "PROPVIOL %s I=%h true=%h err=%g bound=%g tol=%h restored_by_deferral=%d\n" r.id ival t2 (Float.abs (ival -. t2)) bound tol (if restored then 1 else 0)
       end;
       if kind = 1 then Printf.printf "CONV %s %h %h %h\n" r.id ival ((let (rmid, amid) = rminmax fops zt pt in amid -. rmid)) ((let (rmid, amid) = rminmax fops zt pt in amid +. rmid))
     end
   end
 
+(* ---- boundary search (generator only): the model is evaluated on a grid built from the model's own init_grid / rminmax (and the
+   half-line map written here), a one-parameter family is scanned, and every change of the decision signature (converged, final level)
+   between neighbouring parameters is bisected; cases are emitted on both sides of each boundary.  What is COMPARED for those cases is,
+   as for every other case, the model run on the implementation's own grid against the implementation. ---- *)
+let base_grids : (int, float array * float array) Hashtbl.t = Hashtbl.create 7
+let base_grid maxn =
+  try Hashtbl.find base_grids maxn with Not_found ->
+    let (xm, wm) = init_grid fops pi (n maxn) in
+    let g = (Array.of_list xm, Array.of_list wm) in Hashtbl.add base_grids maxn g; g
+let prep maxn kind k z c =
+  let (x0, w0) = base_grid maxn in
+  let (x, w) =
+    if kind = 2 then begin
+      let ln2 = log 2.0 in
+      (Array.map (fun xi -> 1.0 -. log (1.0 -. xi) /. ln2) x0, Array.mapi (fun i wi -> wi /. (ln2 *. (1.0 -. x0.(i)))) w0)
+    end else begin
+      let (rmid, amid) = rminmax fops z c in
+      (Array.map (fun xi -> rmid *. xi +. amid) x0, Array.map (fun wi -> rmid *. wi) w0)
+    end in
+  let v = Array.init maxn (fun i -> w.(i) *. fint k z c x.(i)) in
+  let mx = Array.fold_left Float.max 0.0 v in
+  let st = ref 0 and en = ref (maxn - 1) in
+  while !st < !en && v.(!st) < 1e-30 *. mx do incr st done;
+  while !en > !st && v.(!en) < 1e-30 *. mx do decr en done;
+  (v, !st, !en)
+let model_sig ty maxn kind k tol z c =
+  let (v, st, en) = prep maxn kind k z c in
+  let wf i = let i = int_of_nat i in if i < 0 || i >= maxn then 0.0 else v.(i) in
+  let ((_, cm), nf) = if ty = 1 then integrate_one fops wf (n maxn) (n st) (n en) tol else integrate_two fops wf (n maxn) (n st) (n en) tol in
+  (cm, int_of_nat nf)
+(* the quantities the first acceptance tests of the two schemes compare, from the model's own sum_terms:
+   returns [(slack, band_abs, band_sqrt)] : the test accepts when |slack| <= band_abs * tol (absolute form) or
+   slack^2 <= band_sqrt * tol (the Perez-Jorda relative form) *)
+let slacks ty maxn kind k z c =
+  let (v, st, en) = prep maxn kind k z c in
+  let wf i = let i = int_of_nat i in if i < 0 || i >= maxn then 0.0 else v.(i) in
+  let m = (maxn - 1) / 2 in
+  let st_ lim sh sk = sum_terms fops wf (n maxn) (n lim) (n st) (n en) (n sh) (n sk) in
+  let t1 = v.(m) in
+  let p = (m + 1) / 2 in
+  let t3 = t1 +. st_ 1 p 2 in
+  if ty = 1 then begin
+    let t7 = t3 +. st_ 3 (p / 2) 2 in
+    [| (t3 -. 2.0 *. t1, 1.0, Float.abs t3); (t7 -. 2.0 *. t3, 0.0, Float.abs (t7 -. 4.0 *. t1)) |]
+  end else begin
+    let m2 = (maxn - 2) / 3 in
+    let tm = v.(m2) +. v.(maxn - m2 - 1) in
+    let t2m1 = tm +. t1 +. st_ 1 ((m2 + 1) / 2) 3 in
+    [| (0.5 *. t2m1 -. tm, 9.0 /. 16.0, Float.abs t2m1); (2.0 *. t2m1 -. 3.0 *. t3, 36.0 /. 16.0, Float.abs t2m1) |]
+  end
+
+let scan tier out =
+  let oc = open_out out in
+  let nb = ref 0 and nfam = ref 0 and id = ref 0 in
+  let quick = tier = "quick" in
+  let tols = if quick then [1e-8; 1e-10; 1e-12] else [1e-6; 1e-8; 1e-10; 1e-12; 1e-14] in
+  let npts = if quick then 240 else 800 in
+  let maxb = if quick then 3 else 8 in
+  let offs = [1e-10; 1e-7; 1e-4] in
+  let fam ty points kind k c lo hi tol =
+    incr nfam;
+    let maxn = int_of_nat (if ty = 1 then maxN_one (n points) else maxN_two (n points)) in
+    let par i = lo *. exp (float i /. float (npts - 1) *. log (hi /. lo)) in
+    let sg z = model_sig ty maxn kind k tol z c in
+    let prev = ref (sg (par 0)) in
+    let found = ref [] in
+    for i = 1 to npts - 1 do
+      let s = sg (par i) in
+      if s <> !prev then begin
+        (* bisect between par (i-1) and par i *)
+        let a = ref (par (i - 1)) and b = ref (par i) and sa = !prev in
+        let it = ref 0 in
+        while !it < 80 && (!b -. !a) > 1e-15 *. !b do
+          let m = 0.5 *. (!a +. !b) in
+          if sg m = sa then a := m else b := m; incr it
+        done;
+        found := (min (snd sa) (snd s), !a, !b) :: !found
+      end;
+      prev := s
+    done;
+    (* roots of the first acceptance slacks: the bands in which two consecutive estimates agree by coincidence *)
+    let nroots = ref 0 in
+    for j = 0 to 1 do
+      let sl z = let a = slacks ty maxn kind k z c in a.(j) in
+      let prevs = ref (sl (par 0)) in
+      for i = 1 to npts - 1 do
+        let cur = sl (par i) in
+        let (s0, _, _) = !prevs and (s1, _, _) = cur in
+        if !nroots < maxb && s0 <> 0.0 && s1 <> 0.0 && (s0 < 0.0) <> (s1 < 0.0) && Float.abs s0 > 1e-200 then begin
+          let a = ref (par (i - 1)) and b = ref (par i) in
+          let it = ref 0 in
+          while !it < 80 && (!b -. !a) > 1e-15 *. !b do
+            let mid = 0.5 *. (!a +. !b) in
+            let (sm, _, _) = sl mid in
+            if (sm < 0.0) = (s0 < 0.0) then a := mid else b := mid; incr it
+          done;
+          let r = !a in
+          (* local slope of the slack w.r.t. the parameter *)
+          let h = 1e-6 *. r in
+          let (sp, ba, bs) = sl (r +. h) and (sm, _, _) = sl (r -. h) in
+          let slope = (sp -. sm) /. (2.0 *. h) in
+          if Float.abs slope > 0.0 && Float.is_finite slope then begin
+            incr nroots; incr nb;
+            let emit z =
+              if z > 0.0 then begin
+                incr id;
+                let (zt, pt) = if kind = 2 then (0.0, 0.0) else (z, c) in
+                Printf.fprintf oc "r%d %d %d %h %d %h %h %d %h %h -1 -1\n" !id ty points tol kind zt pt k z c
+              end in
+            emit r;
+            let targets = (if ba > 0.0 then [0.5 *. ba *. tol; 0.98 *. ba *. tol; 1.02 *. ba *. tol; 2.0 *. ba *. tol] else [])
+                          @ [0.2 *. sqrt (bs *. tol); 0.7 *. sqrt (bs *. tol); 1.5 *. sqrt (bs *. tol)] in
+            List.iter (fun t -> let d = t /. Float.abs slope in if d < 0.05 *. r then (emit (r +. d); emit (r -. d))) targets
+          end
+        end;
+        prevs := cur
+      done
+    done;
+    (* keep the boundaries that involve the lowest levels *)
+    let sorted = List.sort compare !found in
+    List.iteri (fun j (_, a, b) ->
+        if j < maxb then begin
+          incr nb;
+          let emit z =
+            incr id;
+            let (zt, pt) = if kind = 2 then (0.0, 0.0) else (z, c) in
+            Printf.fprintf oc "b%d %d %d %h %d %h %h %d %h %h -1 -1\n" !id ty points tol kind zt pt k z c in
+          emit a; emit b;
+          List.iter (fun o -> emit (a *. (1.0 -. o)); emit (b *. (1.0 +. o))) offs
+        end) sorted in
+  List.iter (fun tol ->
+      List.iter (fun (ty, points) ->
+          List.iter (fun k ->
+              fam ty points 2 k 0.0 0.02 30.0 tol;
+              List.iter (fun c -> fam ty points 1 k c 0.05 500.0 tol) [0.0; 1.5]) [0; 1; 2])
+        [(1, 15); (1, 127); (2, 23); (2, 191)]) tols;
+  close_out oc;
+  Printf.printf "SCAN families=%d boundaries=%d cases=%d\n" !nfam !nb !id
+
 let () =
+  if Array.length Sys.argv > 3 && Sys.argv.(1) = "scan" then (scan Sys.argv.(2) Sys.argv.(3); exit 0);
   let ic = open_in Sys.argv.(1) in
   read_records ic do_case;
   Printf.printf "SUMMARY cases=%d converged=%d oracle_inconclusive=%d mismatches=%d propviol=%d\n" !ncase !nconv !ninc !nmis !nprop
